@@ -13,7 +13,32 @@ import (
 // rules still find it by what it does. Each resolver must pick exactly one
 // function, otherwise the anchor stays unresolved (and the rule undecided).
 
-func init() { an.RoleResolver = resolveRole }
+func init() {
+	an.RoleResolver = resolveRole
+	an.CanonicalLocal = canonicalLocal
+}
+
+// canonicalLocal: the local record a function of package engine looks its
+// match data up into is named after its type, not after the local.
+var canonicalLocalNames = map[string]string{
+	"fileMatchData": "fd", "forDotsData": "fd", "stmtListData": "sd", "sliceDotsData": "sd",
+	"importsData": "impData", "importMetavarData": "mdata", "metavarData": "md", "searchResultData": "sr",
+}
+
+func canonicalLocal(a *ssa.Alloc) string {
+	p, ok := a.Type().Underlying().(*types.Pointer)
+	if !ok {
+		return ""
+	}
+	n, ok := p.Elem().(*types.Named)
+	if !ok || n.Obj().Pkg() == nil || n.Obj().Pkg().Path() != enginePath {
+		return ""
+	}
+	if a.Comment == "complit" || a.Comment == "" {
+		return ""
+	}
+	return canonicalLocalNames[n.Obj().Name()]
+}
 
 func resolveRole(p *an.Prog, rel, spec string) *ssa.Function {
 	if rel == engine {
